@@ -1,0 +1,74 @@
+//go:build verif
+
+// Contracts for govc (see /verif/DESIGN.md). Comment-only file.
+
+package ixkey
+
+//@ property C12
+
+// escOK(s, lo, hi): in s[lo:hi] every zero byte is followed by a one (an
+// escaped zero), so the region contains no separator 0,0 and does not end in 0
+//@ spec escOK(s []byte, lo int, hi int) bool = forall k :: lo <= k && k < hi && s[k] == 0 ==> k + 1 < hi && s[k + 1] == 1
+
+// encode appends the escape image of b0 to buf0
+//@ func encode(buf0, b0) (r)
+//@   modifies elems(buf0)
+//@   ensures! prefix: len(r) >= len(buf0) + len(b0) && forall k :: 0 <= k && k < len(buf0) ==> r[k] == old(buf0[k])
+//@   ensures! escaped: escOK(r, len(buf0), len(r))
+//@   ensures! nozero_same: (forall k :: 0 <= k && k < len(b0) ==> b0[k] != 0) ==> len(r) == len(buf0) + len(b0) && forall k :: 0 <= k && k < len(b0) ==> r[len(buf0) + k] == b0[k]
+//@   ensures ref(r) == ref(buf0) || fresh(r)
+//@   loop 0 invariant len(buf) >= len(buf0) && (ref(buf) == ref(buf0) || fresh(buf)) && framed(buf0, buf)
+//@   loop 0 invariant forall k :: 0 <= k && k < len(buf0) ==> buf[k] == old(buf0[k])
+//@   loop 0 invariant escOK(buf, len(buf0), len(buf))
+//@   loop 0 invariant len(b) <= len(b0) && len(buf) - len(buf0) >= len(b0) - len(b) && sarr(b) == sarr(b0) && off(b) + len(b) == off(b0) + len(b0)
+//@   loop 0 invariant (forall k :: 0 <= k && k < len(b0) ==> b0[k] != 0) ==> len(buf) == len(buf0)
+//@   loop 0 decreases len(b)
+
+//@ func Cksize(n)
+//@   panics_if n > 4096
+//@ func Cklen(s) (r)
+//@   panics_if len(s) > 4096
+//@   ensures! r == s
+
+// Encode: the escape image of s (s itself when it has no zero byte)
+//@ func Encode(s) (r)
+//@   ensures! nozero: (forall k :: 0 <= k && k < len(s) ==> s[k] != 0) ==> r == s
+//@   ensures! escaped: forall k :: 0 <= k && k < len(r) && r[k] == 0 ==> k + 1 < len(r) && r[k + 1] == 1
+//@   ensures! len: len(r) >= len(s)
+
+// Add appends a field: the first field directly, later fields after a separator 0,0
+//@ func (e *Encoder) Add(fld)
+//@   requires e != nil
+//@   modifies e.buf, elems(e.buf)
+//@   panics_if len(e.buf) + len(fld) > 4096
+//@   ensures! first: old(e.buf == nil) ==> len(e.buf) >= len(fld) && escOK(e.buf, 0, len(e.buf))
+//@   ensures! later: old(e.buf != nil) ==> len(e.buf) >= old(len(e.buf)) + 2 + len(fld) && (forall k :: 0 <= k && k < old(len(e.buf)) ==> e.buf[k] == old(e.buf[k])) && e.buf[old(len(e.buf))] == 0 && e.buf[old(len(e.buf)) + 1] == 0 && escOK(e.buf, old(len(e.buf)) + 2, len(e.buf))
+//@   ensures! nonnil: e.buf != nil
+
+// String: the key with trailing separators (trailing empty fields) removed, and nothing else
+//@ func (e *Encoder) String() (r)
+//@   requires e != nil
+//@   modifies e.buf
+//@   ensures! reset: e.buf == nil
+//@   ensures! prefix: len(r) <= old(len(e.buf)) && forall k :: 0 <= k && k < len(r) ==> r[k] == old(e.buf[k])
+//@   ensures! only_separators_removed: (old(len(e.buf)) - len(r)) % 2 == 0 && forall k :: len(r) <= k && k < old(len(e.buf)) ==> old(e.buf[k]) == 0
+//@   ensures! trimmed: len(r) < 2 || r[len(r) - 2] != 0 || r[len(r) - 1] != 0
+//@   loop 0 invariant len(s) <= old(len(e.buf)) && (old(len(e.buf)) - len(s)) % 2 == 0 && (forall k :: 0 <= k && k < len(s) ==> s[k] == old(e.buf[k])) && (forall k :: len(s) <= k && k < old(len(e.buf)) ==> old(e.buf[k]) == 0)
+//@   loop 0 decreases len(s)
+
+// HasPrefix: byte-wise prefix that ends at a field boundary
+//@ func HasPrefix(s, prefix) (r)
+//@   ensures! def: r <==> len(s) >= len(prefix) && (forall k :: 0 <= k && k < len(prefix) ==> s[k] == prefix[k]) && (len(s) == len(prefix) || (len(s) >= len(prefix) + 2 && s[len(prefix)] == 0 && s[len(prefix) + 1] == 0))
+
+// SplitPrefixSuffix: the prefix is a prefix of the key without trailing
+// separators, the suffix a suffix of the key; never indexes out of range
+//@ func SplitPrefixSuffix(key0, n0) (prefix, suffix)
+//@   requires n0 > 0
+//@   ensures! prefix: len(prefix) <= len(key0) && forall k :: 0 <= k && k < len(prefix) ==> prefix[k] == key0[k]
+//@   ensures! suffix: len(suffix) <= len(key0) && forall k :: 0 <= k && k < len(suffix) ==> suffix[k] == key0[len(key0) - len(suffix) + k]
+//@   ensures! trimmed: len(prefix) < 2 || prefix[len(prefix) - 2] != 0 || prefix[len(prefix) - 1] != 0
+//@   ensures! disjoint: len(prefix) + len(suffix) <= len(key0)
+//@   loop 0 invariant 0 <= i && i <= len(key0) && n >= 1 && n <= n0
+//@   loop 0 decreases len(key0) - i
+//@   loop 1 invariant len(key) <= len(key0) && len(key) + len(suffix) <= len(key0) && (forall k :: 0 <= k && k < len(key) ==> key[k] == key0[k]) && (forall k :: 0 <= k && k < len(suffix) ==> suffix[k] == key0[len(key0) - len(suffix) + k])
+//@   loop 1 decreases len(key)
